@@ -13,5 +13,6 @@ mkdir -p $R/verif/work $R/verif/replay
 sed -i "s#/repo/#$R/repo/#g" $R/verif/harness/Cargo.toml
 ( cd $R/verif/coq && coq_makefile -f _CoqProject -o Makefile >/dev/null 2>&1 )
 ( cd $R/verif && VERIF_REPO=$R/repo ./check $ID --tier $TIER 2>&1 | tail -${LINES_OUT:-6} )
+if [ -n "${KEEP:-}" ]; then echo "kept: $R"; exit 0; fi
 git -C /repo worktree remove --force $R/repo >/dev/null 2>&1
 rm -rf $R
